@@ -453,6 +453,9 @@ def witness_cases():
                                                    ("iface", "IW", None, [("method", "m", [("in", "SN", None, "p0"), ("out", "SN", None, "p1")], False, None)])])))
     W.append(("K_cpp_forward_iface_ref", ("cpp",), fs1([("iface", "IHub", None, [("method", "open", [("out", "ILater", None, "p0")], False, None)]),
                                                         ("iface", "ILater", None, [("method", "close", [], False, None)])])))
+    W.append(("REGRESSION_struct_declared_after_use", ("c", "cpp"), fs1([("struct", "Outer", [("Header", 1, "h"), ("Body", 2, "b")]), ("struct", "Header", [("uint32", 1, "a")]),
+                                                                        ("struct", "Body", [("uint32", 1, "b")]), ("struct", "Deep", [("Outer", 1, "o"), ("Header", 1, "again")]),
+                                                                        ("iface", "IW", None, [("method", "m", [("in", "Outer", None, "p0"), ("out", "Deep", None, "p1")], False, None)])])))
     W.append(("REGRESSION_c_forward_iface_ref", ("c",), fs1([("struct", "SH", [("ILater", 1, "l"), ("uint64", 1, "a"), ("uint64", 1, "b")]),
                                                              ("iface", "IHub", None, [("method", "open", [("out", "ILater", None, "p0"), ("in", "SH", None, "p1")], False, None),
                                                                                       ("method", "arr", [("in", "ILater", "[2]", "p0")], False, None)]),
@@ -513,6 +516,9 @@ def run(ctx_):
         if k % 2 == 1:
             # interfaces named before the same file declares them
             gen.add_forward_refs(rng, fs, prob=0.6)
+        if k % 3 == 1:
+            # structs declared before the structs they contain
+            gen.reorder_structs(rng, fs)
         jobs.append(("clean", fs, gctx, False, {}))
         if k % 3 == 0:
             jobs.append(("clean-untyped", fs, gctx, True, {}))
